@@ -2095,6 +2095,16 @@ def c09(ctx):
                     continue
                 inserted, updc2, _created = r.keep
                 burned_map = updc2[0][0]
+                # statement-level step invariant, independent of the reference: what the transaction
+                # stores on its outputs plus what it burns is what came in plus mint plus premine
+                total_in = sum([X.zint(b_) for b_ in un_bals], z3.IntVal(0)) + (mint_amt if mint_amt is not None else 0) + (premine if etched else 0)
+                total_out = z3.IntVal(0)
+                for _key, buf in inserted:
+                    for pair in buf:
+                        total_out = total_out + X.zint(pair[1])
+                for pair in burned_map:
+                    total_out = total_out + X.zint(pair[1][0])
+                ob.query(r.pc, total_out == total_in, ob.vars, "runes are created or destroyed: stored + burned differs from inputs + mint + premine")
                 refin = Struct([nout, pad(opret, 4, False), kind, nun, pad(un_ids, 3, zero), pad(un_bals, 3, 0),
                                 opt(mint_id), opt(mint_amt), opt(et_id), premine,
                                 ne, pad(edicts, 2, Struct([Struct([0, 0]), 0, 0])), opt(ptr)])
@@ -2153,7 +2163,9 @@ def c09(ctx):
         scen = [(0, 1, 1, 0, None, False, False), (0, 3, 2, 0, None, False, False), (1, 2, 2, 0, "open", False, False), (1, 2, 1, 0, "closed", False, False),
                 (2, 2, 0, 0, "open", False, True), (2, 2, 1, 1, None, False, False), (2, 2, 1, 1, None, False, True), (2, 3, 1, 1, "open", False, False),
                 (2, 2, 1, 1, None, True, False), (2, 2, 2, 1, None, False, False), (2, 3, 2, 1, None, False, True), (2, 2, 1, 2, None, False, False),
-                (2, 2, 1, 2, None, True, True), (2, 3, 1, 2, "open", False, False), (2, 4, 1, 1, None, False, False), (2, 4, 1, 1, None, False, True), (2, 2, 0, 0, "self", True, False), (2, 2, 1, 1, "self", True, False),
+                # two edicts with etching + pointer, and with 3 outputs + open mint, ran > 40 min / > 20 min each
+                # (path explosion): their first edict's id is pinned to 0:0 (the etched rune / a skipped edict)
+                (2, 2, 1, 2, None, True, True, {"e0_block": 0, "e0_tx": 0}), (2, 3, 1, 2, "open", False, False, {"e0_block": 0, "e0_tx": 0}), (2, 4, 1, 1, None, False, False), (2, 4, 1, 1, None, False, True), (2, 2, 0, 0, "self", True, False), (2, 2, 1, 1, "self", True, False),
                 (2, 2, 1, 2, None, False, False, {"e0_block": 0, "e0_tx": 0})]
     for sc in scen:
         kind, nout, nun, ne, mint, etched, pointer = sc[:7]
